@@ -92,6 +92,9 @@ func render(m model, style int) string {
 		sep = " \t  "
 	}
 	var sb strings.Builder
+	if (style/48)%2 == 1 {
+		sb.WriteString(sep) // spacing in front of the protocol too (as after the ':' of an address list)
+	}
 	sb.WriteString(m.Proto)
 	for i, o := range m.Opts {
 		sb.WriteString(sep)
@@ -254,7 +257,7 @@ func main() {
 	if dn, err := os.OpenFile(os.DevNull, os.O_WRONLY, 0); err == nil {
 		os.Stderr = dn
 	}
-	run.SetRule("endpoints drawn from a model (proto x hosts x ports x timeouts x every subset of the optional options with boundary weights), rendered in all option permutations (<=5 options; sampled beyond) x 48 spacing/flag-form styles; each distinct rendered string is a case. Registry route on every model endpoint. Address lists through the real ServantProxy constructor. Hostile: every string of length 0..4 over a 9-symbol alphabet plus seeded random strings, under recover().")
+	run.SetRule("endpoints drawn from a model (proto x hosts x ports x timeouts x every subset of the optional options with boundary weights), rendered in all option permutations (<=5 options; sampled beyond) x 96 spacing/flag-form styles (separators blank / blanks / tab / mixed, also in front of the protocol and at the end; -x v, --x v, -x=v); each distinct rendered string is a case. Registry route on every model endpoint. Address lists through the real ServantProxy constructor. Hostile: every string of length 0..4 over a 9-symbol alphabet plus seeded random strings, under recover().")
 	run.Assume("flag syntax forms -x v, --x v, -x=v are all 'the textual form'; numeric values are rendered as plain decimals")
 	rng := run.Rand("model")
 	nModels := run.Pick(1500, 60000)
@@ -269,7 +272,7 @@ func main() {
 				pm.Opts = append(pm.Opts, m.Opts[j])
 			}
 			w := expected(pm)
-			style := (i + pi) % 48
+			style := (i + pi) % 96
 			if pi == 0 {
 				style = 0
 			}
